@@ -83,3 +83,123 @@ def check_encode(ck, F, rule):
         return
     ok = isinstance(ret, Enum) and ret.variant == "Ok" and isinstance(ret.payload[0], Bytes) and len(ret.payload[0].parts) == 1 and ret.payload[0].parts[0][0] == "compressed" and ret.payload[0].parts[0][1] is pf
     ck.require(ok, rule, "to_bytes:whole-self", f"to_bytes must return exactly the compressed encoding of self (deterministic: reads only self); got {ret!r}", where)
+
+
+# ---------------------------------------------------------------------------------------------
+# wire manifest (C18): every observable wire constant of the protocol, extracted from the program
+
+
+def extract_manifest(F):
+    from . import harness as H
+    from . import schedule as SC
+    from . import sched as S
+    from . import analyses as AN
+    from .alg import Bytes as _B
+    from .interp import Tr
+
+    man = {}
+    rv, _ = SC.verifier_schedule(F)
+    rp, _ = SC.prover_schedule(F)
+    for role, r in (("verifier", rv), ("prover", rp)):
+        syms = sorted(S.symbols_of(r))
+        man[f"schedule_symbols.{role}"] = [f"{k}|{l}|{role_}" for k, l, role_ in syms]
+    # clone side: the batching weight
+    I = AN.verifier_scalars(F)["I"]
+    man["clone_ops"] = sorted(f"{it[1]['kind']}|{(it[1]['label'] or b'?').decode(errors='replace')}" for it, ctx in AN.flat_trace(I.trace.items) if it[0] == "op" and it[1]["tr"].is_clone())
+    # prover RNG
+    P = AN.prover_run(F)
+    rng = next((d["rng"] for d in P["I"].draw_log if d["fn"].endswith("prove_and_return_transcript")), None)
+    if rng is not None and rng.kind == "transcript_rng":
+        b = rng.info["builder"]
+        man["prover_rng.rekey_labels"] = sorted({(r["label"] or b"?").decode(errors="replace") for r in b.rekeys})
+        man["prover_rng.rekey_payload"] = sorted({r["payload"].parts[0][0] if isinstance(r["payload"], _B) and r["payload"].parts else "?" for r in b.rekeys})
+        man["prover_rng.kind"] = "merlin::TranscriptRng(build_rng -> rekey_with_witness_bytes* -> finalize(external))"
+    else:
+        man["prover_rng.kind"] = repr(rng)
+    # challenge derivation
+    Ic = H.new_interp(F)
+    path = "<merlin::Transcript as transcript::TranscriptProtocol<G>>::challenge_scalar"
+    Ic.call_fn(path, [Tr("t"), _B([("lit", b"lbl")])])
+    d = Ic.draw_log
+    if len(d) == 1:
+        r = d[0]["rng"]
+        seed = r.info.get("seed")
+        man["challenge.prg"] = r.info.get("impl", "?")
+        man["challenge.seed_bytes"] = seed.parts[0][1]["size"] if isinstance(seed, _B) and seed.parts and seed.parts[0][0] == "challenge" else "?"
+        man["challenge.draws"] = r.draws
+    else:
+        man["challenge.prg"] = f"{len(d)} draws"
+    # transcript encodings of points / scalars
+    encs = set()
+    for role, r in (("verifier", rv), ("prover", rp)):
+        for s in S.symbols_of(r):
+            if s[0] in ("append_point", "append_scalar"):
+                encs.add(("compressed" if s[2].startswith("COMPRESSED:") else "uncompressed") + ":" + s[0])
+            if s[2].startswith("bytes:"):
+                encs.add("other:" + s[1])
+    man["transcript.encodings"] = sorted(encs)
+    # generator chain
+    from .props import C12 as G12
+
+    Ig = H.new_interp(F)
+    ch = Ig.call_fn(G12.P_NEW, [_B([("lit", b"LBL")])])
+    sf = G12.seed_facts(ch.fields.get("prng")) if hasattr(ch, "fields") else None
+    if sf:
+        man["chain.hash"] = sf["hash"]
+        man["chain.hashed_parts"] = [repr(u.parts) if isinstance(u, _B) else repr(u) for u in sf["updates"]]
+        man["chain.seed_slice"] = f"[{sf['lo']}..{sf['hi']})"
+        man["chain.prg"] = sf["impl"]
+    Ip = H.new_interp(F)
+    Ip.call_fn(G12.P_DEF, [])
+    dp = [x for x in Ip.draw_log if x["kind"] == "point"]
+    sfp = G12.seed_facts(dp[0]["rng"]) if dp else None
+    if sfp:
+        man["pedersen.hash"] = sfp["hash"]
+        man["pedersen.hashed_parts"] = [(u.parts[0][0] + "(" + str(u.parts[0][1].terms[0][1](0)) + ")") if isinstance(u, _B) and u.parts and hasattr(u.parts[0][1], "terms") else repr(u) for u in sfp["updates"]]
+        man["pedersen.seed_slice"] = f"[{sfp['lo']}..{sfp['hi']})"
+        man["pedersen.prg"] = sfp["impl"]
+    # labels of increase_capacity
+    calls = []
+
+    def hook_new(I_, args, node):
+        from .alg import Opaque
+
+        c = Opaque("chain", label=I_.deref(args[0]), idx=[lc["isym"] for lc in I_.loop_ctx if lc.get("isym") is not None])
+        calls.append(c)
+        return c
+
+    def hook_ff(I_, args, node):
+        from .interp import IterV
+        from .alg import Pt
+        import sympy as sp
+
+        return IterV(None, infinite=lambda i: Pt.atom(sp.Symbol("g")))
+
+    from .alg import IntV, Seg, Struct, Vec, isym, Pt
+    from .interp import ReturnSignal
+    import sympy as sp
+
+    I4 = H.new_interp(F, {G12.P_NEW: hook_new, G12.P_FF: hook_ff})
+    old, new, parties = isym("old"), isym("new"), isym("parties")
+    Gv = Vec([Seg(parties, lambda i: Vec([Seg(old, lambda j: Pt.atom(sp.Symbol("g")))]))])
+    gens = Struct("generators::BulletproofGens", {"gens_capacity": IntV(old), "party_capacity": IntV(parties), "G_vec": Gv, "H_vec": Gv})
+    try:
+        I4.call_fn(G12.P_INC, [gens, IntV(new)])
+    except (ReturnSignal, Exception):
+        pass
+    labs = []
+    for c in calls:
+        sh = G12.label_shape(c.info["label"])
+        if sh:
+            labs.append(f"tag={sh[0]}({chr(sh[0]) if 32 < sh[0] < 127 else '?'}) rest={sh[1][0] if sh[1] else '?'}32(party index) len={1 + int(sh[1][2]) if sh[1] else '?'}")
+        else:
+            labs.append("unrecognised")
+    man["chain.labels"] = labs
+    # proof layout and codec
+    man["layout.R1CSProof"] = [f"{n}:{t}" for n, t, _ in struct_fields(F, "r1cs::proof::R1CSProof")]
+    man["layout.InnerProductProof"] = [f"{n}:{t}" for n, t, _ in struct_fields(F, "inner_product_proof::InnerProductProof")]
+    man["codec.to_bytes"] = [c for c, _ in codec_calls(F, P_TO)]
+    man["codec.from_bytes"] = [c for c, _ in codec_calls(F, P_FROM)]
+    for adt in ("r1cs::proof::R1CSProof", "inner_product_proof::InnerProductProof"):
+        man[f"codec.impls.{adt.split('::')[-1]}"] = sorted(f"{i['trait']}<-{i['expn']}" for i in F.items["impls"] if i["self_ty"].startswith(adt) and (i["trait"] or "").startswith("ark_serialize::"))
+    return man
